@@ -437,3 +437,104 @@ Proof.
       * intros x [<-|Hx]; [left; reflexivity|right; apply Hsub; exact Hx].
       * intros Hr. exfalso. apply Hnr. apply Hr. left. reflexivity.
 Qed.
+
+(** ** one step of the cache-free driver *)
+Lemma simp_children_F2 g : forall chs cs, simp_children (simp g) chs = inr cs ->
+  Forall2 (fun ch v => simp g ch = SOk v) chs cs.
+Proof.
+  induction chs as [|ch rest IH]; intros cs H; cbn [simp_children] in H.
+  - inversion H. constructor.
+  - destruct (simp g ch) as [v| |] eqn:Ec; try discriminate.
+    destruct (simp_children (simp g) rest) as [|rest'] eqn:Er; [discriminate|].
+    inversion H; subst cs. constructor; [exact Ec|apply IH; reflexivity].
+Qed.
+
+Lemma F2_simp_NF g chs cs : Forall2 (fun ch v => simp g ch = SOk v) chs cs -> Forall2 NF chs cs.
+Proof. induction 1; constructor; [eexists; eassumption|assumption]. Qed.
+
+Lemma F2_simp_In g chs cs : Forall2 (fun ch v => simp g ch = SOk v) chs cs ->
+  forall x, In x chs -> exists v, simp g x = SOk v.
+Proof. induction 1 as [|ch v chs cs H _ IH]; intros x []; [subst; eexists; eassumption|apply IH; assumption]. Qed.
+
+Lemma F2_NF_det : forall chs cs cs', Forall2 NF chs cs -> Forall2 NF chs cs' -> cs = cs'.
+Proof.
+  induction chs as [|ch rest IH]; intros cs cs' H1 H2; inversion H1; inversion H2; subst; [reflexivity|].
+  f_equal; [eapply NF_det; eassumption|eapply IH; eassumption].
+Qed.
+
+Lemma simp_step_inv g e r : simp (S g) e = SOk r ->
+  exists cs o, Forall2 (fun ch v => simp g ch = SOk v) (children e) cs /\ simplify e cs = Ok o /\
+    ((new_of e cs o = e /\ r = e) \/ (new_of e cs o <> e /\ simp g (new_of e cs o) = SOk r)).
+Proof.
+  intros Hs. cbn [simp] in Hs.
+  destruct (simp_children (simp g) (children e)) as [err|cs] eqn:Ecs.
+  { exfalso. eapply simp_children_inl_not_ok; [exact Ecs|exact Hs]. }
+  pose proof (simp_children_F2 _ _ _ Ecs) as HF.
+  assert (Hlen : length cs = length (children e)).
+  { symmetry. eapply Forall2_len. exact HF. }
+  destruct (simplify e cs) as [o|] eqn:Ho; [|discriminate].
+  exists cs, o. split; [exact HF|split; [exact Ho|]].
+  unfold new_of. destruct o as [r0|].
+  - destruct (expr_eqb r0 e) eqn:E.
+    + apply expr_eqb_eq in E. inversion Hs. left. split; congruence.
+    + right. split; [apply eqb_false_neq; exact E|exact Hs].
+  - rewrite changed_spec_list_eqb by exact Hlen.
+    destruct (list_eqb cs (children e)) eqn:El; cbn [negb].
+    + inversion Hs. left. split; reflexivity.
+    + right. split; [|exact Hs]. intros Hr. apply rebuild_self in Hr; [|exact Hlen].
+      subst cs. rewrite list_eqb_refl in El. discriminate.
+Qed.
+
+(** the one-step result needs strictly less fuel *)
+Lemma onestep_desc e cs o :
+  Forall2 NF (children e) cs -> simplify e cs = Ok o -> new_of e cs o <> e -> desc e (new_of e cs o).
+Proof.
+  intros HF Ho Hne m r Hs. destruct m as [|g]; [discriminate|].
+  destruct (simp_step_inv _ _ _ Hs) as (cs' & o' & HF' & Ho' & Hcase).
+  assert (cs' = cs) by (eapply F2_NF_det; [eapply F2_simp_NF; exact HF'|exact HF]). subst cs'.
+  rewrite Ho in Ho'. inversion Ho'; subst o'.
+  destruct Hcase as [[H _]|[_ H]]; [contradiction|]. exists g. split; [lia|exact H].
+Qed.
+
+(** ** the work loop: [steps c t c' t']: from cache [c] and stack [t] the loop arrives at [c'] and [t'],
+    using at most [K] units of fuel *)
+Definition steps (c : cache) (t : list expr) (c' : cache) (t' : list expr) : Prop :=
+  exists K, forall f, (K <= f)%nat -> exists f', (f <= f' + K)%nat /\ run f c t = run f' c' t'.
+
+Lemma steps_refl c t : steps c t c t.
+Proof. exists O. intros f _. exists f. split; [lia|reflexivity]. Qed.
+
+Lemma steps_trans c1 t1 c2 t2 c3 t3 : steps c1 t1 c2 t2 -> steps c2 t2 c3 t3 -> steps c1 t1 c3 t3.
+Proof.
+  intros [K1 H1] [K2 H2]. exists (K1 + K2)%nat. intros f Hf.
+  destruct (H1 f ltac:(lia)) as (f1 & Hf1 & E1).
+  destruct (H2 f1 ltac:(lia)) as (f2 & Hf2 & E2).
+  exists f2. split; [lia|congruence].
+Qed.
+
+Lemma steps_final c t c' : steps c t c' [] -> exists F, forall f, (F <= f)%nat -> run f c t = ROk c'.
+Proof.
+  intros [K H]. exists (S K). intros f Hf. destruct (H f ltac:(lia)) as (f' & Hf' & E).
+  rewrite E. destruct f' as [|f']; [lia|reflexivity].
+Qed.
+
+Lemma steps_visit_missing c e rest B c1 cs chg m ms :
+  (forall f, (B <= f)%nat -> visit f c (children e) = VOk c1 cs chg (m :: ms)) ->
+  steps c (e :: rest) c1 (rev (m :: ms) ++ e :: rest).
+Proof.
+  intros HV. exists (S B). intros f Hf. destruct f as [|f]; [lia|].
+  exists f. split; [lia|]. cbn [run]. rewrite (HV f) by lia. reflexivity.
+Qed.
+
+Lemma steps_visit_done c e rest B c1 cs o :
+  (forall f, (B <= f)%nat -> visit f c (children e) = VOk c1 cs (changed_spec cs (children e)) []) ->
+  simplify e cs = Ok o ->
+  let new := new_of e cs o in
+  let c2 := update c1 e new in
+  steps c (e :: rest) c2 (if negb (expr_eqb e new) && is_none (lookup c2 new) then new :: rest else rest).
+Proof.
+  intros HV Ho new c2. exists (S B). intros f Hf. destruct f as [|f]; [lia|].
+  exists f. split; [lia|]. cbn [run]. rewrite (HV f) by lia. rewrite Ho. cbv zeta.
+  fold (new_of e cs o). fold new. fold c2.
+  destruct (negb (expr_eqb e new) && is_none (lookup c2 new)); reflexivity.
+Qed.
